@@ -22,3 +22,16 @@ SPEC = dict(
 
 def run(tier, seed):
     return svlib.run_spec(SPEC, tier, seed)
+
+MANIFEST = dict(
+    claimed=True,
+    technique="Lean 4 theorem (refinement of the LSP client text by the server's byte-offset model, lifted to histories by induction) + differential correspondence against TextDocument::apply_change",
+    text="proof: C23_sync/C23_invalid_rejected/C23_no_panic/C23_history hold for ALL documents (any Unicode), ranges and "
+         "histories of the model of TextDocument (byte offsets, UTF-8/UTF-16 arithmetic, Rust slice panics explicit); the "
+         "model is hand-written and tied to the real code on every run by driving apply_change with random edit histories "
+         "and comparing every result with the model (agree) and with the LSP client model (property predicate).",
+    note="trusted: Lean kernel + propext/Classical.choice/Quot.sound; the statement of the client model (LSP 3.17 position "
+         "semantics, LF/CRLF terminators; lone CR not a terminator); the harness generator; rustc. Modelled not verified: "
+         "the file read in build_from_path, DashMap store, write-back to disk. The unchanged upstream code violated the "
+         "property (UTF-16 column used as byte offset, no clamp) — repaired by a fix: commit, listed in known_findings.json as fixed.",
+)
